@@ -4,7 +4,8 @@ package tables
 
 // C43 — row endpoints enforce table grants.  Correspondence + oracle harness.
 //
-// Runs the REAL permission store (resources on SQLite), the REAL file DSN service, the REAL
+// Runs the REAL permission store (resources on SQLite), the REAL file DSN service and the REAL database DSN service
+// (dsns.NewDatabaseService on SQLite, with its DSN cache; zz_verif_c43f_test.go), the REAL
 // Authorized / GrantPermissions / DeletePermissions / createTablePermissions / removeTablePermissions /
 // DeletePermissionsByDSN functions and the REAL row handlers (ReadRows, InsertRows, UpdateRows, DeleteRows)
 // on generated histories.  Every step is written as a protocol line for the Lean model (c43_cases.jsonl);
